@@ -36,6 +36,12 @@ fn initial_files() -> Vec<&'static [u8]> {
         b"[a]k=1\n[c] ; c\n\tk = 1\n\n\n[a \"B\"]\n",
         b"[c]\n\tk = v",
         b"",
+        // continuation-line values BEFORE other keys of the same section: 1 continuation without comment, 2 continuations with trailing comment
+        b"[a]\n\tk = x\\\n  y\n\tj = 2\n[c]\n\tk = p\\\n q\\\n r ; t\n\tj = 5 # five\n\tl = 6\n",
+        // the same key repeated: single k, multi-line j with comment, multi-line k (the last k) followed by l; a.b: multi-line k followed by a single k
+        b"[a]\n\tk = 1\n\tj = m\\\n n # cj\n\tk = x\\\n y\n\tl = 7\n[a \"b\"]\n\tk = u\\\n v\n\tk = w\n",
+        // CRLF continuation followed by another key
+        b"[c]\r\n\tk = a\\\r\n b\r\n\tj = 1\r\n",
     ]
 }
 
@@ -55,6 +61,13 @@ fn ops() -> Vec<Op> {
         v.push(Op::DeleteAll(s(sec), o(sub), s("k")));
         v.push(Op::NewSection(s(sec), o(sub)));
         v.push(Op::RemoveSection(s(sec), o(sub)));
+    }
+    // neighbours of k: j in a and c (set / remove / delete-all / push)
+    for sec in ["a", "c"] {
+        v.push(Op::Set(s(sec), None, s("j"), B(b"9".to_vec())));
+        v.push(Op::RemoveValue(s(sec), None, s("j")));
+        v.push(Op::DeleteAll(s(sec), None, s("j")));
+        v.push(Op::SetAll(s(sec), None, s("j"), B(b"z".to_vec())));
     }
     v.push(Op::Rename(s("a"), None, s("c"), None));
     v.push(Op::Rename(s("a"), o(Some("b")), s("a"), None));
@@ -400,8 +413,8 @@ pub fn run(run: &'static Run) {
     let files = initial_files();
     let ops = ops();
     run.rule(format!(
-        "states = serialized config texts reachable from {} initial files (duplicate sections, comments, CRLF + continuation + implicit boolean, upper case + legacy header, header and key on one line + empty section, no final newline, empty file) by <= {depth} edits; \
-         {} edits: set/push (2 values: `1` and one needing quotes+escapes) / set-all / remove / delete-all of key k in a, a.b, c; new/remove section a, a.b, c; 4 renames; breadth-first with dedup on the text. \
+        "states = serialized config texts reachable from {} initial files (duplicate sections, comments, CRLF + continuation + implicit boolean, upper case + legacy header, header and key on one line + empty section, no final newline, empty file, continuation-line values with 1 and 2 continuations with/without trailing comment placed before other keys incl. a repeated key name, CRLF continuation before another key) by <= {depth} edits; \
+         {} edits: set/push (2 values: `1` and one needing quotes+escapes) / set-all / remove / delete-all of key k in a, a.b, c and of its neighbour j in a, c; new/remove section a, a.b, c; 4 renames; breadth-first with dedup on the text. \
          each transition: parse state -> one real API call -> to_bstring; validated against an ordered-list reference model (sections, keys, values), comment preservation per section, and `git config --list -z` on every distinct new state",
         files.len(),
         ops.len()
